@@ -142,6 +142,21 @@ Section Loop.
     - destruct (Nat.ltb max_it it); [discriminate|]. apply Hrec. exact H.
   Qed.
 
+  (* C13, the stored potential (as repaired: update() keeps the iterate P' that passed the test, the one the step's currents were
+     computed with, not the next Polyak iterate A'): it reproduces the kernel of those currents edge by edge to within the
+     tolerance (relative to max(tiny, |A'_e|)), whatever the step size, the drag and the velocity history *)
+  Theorem stored_tested_iterate_mismatch : forall fuel it err A v lastK prevA A' iters e K' P',
+    0 < tiny ->
+    loop_inv err A lastK prevA ->
+    screen_loop OpsR Jof edges fuel alpha beta tol tiny max_it it err A v lastK prevA = Converged OpsR A' iters e K' P' ->
+    K' = kernel OpsR (Jof P') edges /\
+    Forall (fun '(d, a) => vnorm OpsR d < tol * Rmax tiny (vnorm OpsR a)) (combine (map2 (vsub OpsR) K' P') A').
+  Proof.
+    intros fuel it err A v lastK prevA A' iters e K' P' Ht Hinv H.
+    destruct (exit_implies_converged _ _ _ _ _ _ _ _ _ _ _ _ Hinv H) as [He [HK [v' [_ Hee]]]].
+    split; [exact HK|]. apply rel_error_bound; [exact Ht|]. rewrite <- Hee. exact He.
+  Qed.
+
   (* the number of screening iterations reported never exceeds max_iterations_per_step + 1 *)
   Theorem iterations_bounded : forall fuel it err A v lastK prevA A' iters e K' P',
     (it <= max_it + 1)%nat ->
